@@ -1,7 +1,8 @@
 /- C15: a decode result depends only on the bytes: the receiver-aware decoder equals the plain one (generic), every
    field of every type is assigned by exactly one recognised decode statement (kernel-evaluated on Gen). -/
-import FinProto.Obl.Side
 import FinProto.Props.RecvProofs
+import FinProto.Checks
+import FinProto.Gen
 namespace FinProto.Obl
 open FinProto
 
